@@ -77,6 +77,12 @@ func (p *Parser) parseDirective() (directives.Directive, error) {
 		}
 	}
 	if p.Current() == 'i' {
+		if !addons.Empty() {
+			return directives.SetRange(&dir, s.Range()), s.Annotate(directives.Error{
+				Message: "annotations must be followed by a transaction",
+				Range:   addons.Range,
+			})
+		}
 		if dir.Directive, err = p.parseInclude(); err != nil {
 			return directives.SetRange(&dir, s.Range()), s.Annotate(err)
 		}
@@ -93,6 +99,12 @@ func (p *Parser) parseDirective() (directives.Directive, error) {
 				return directives.SetRange(&dir, s.Range()), s.Annotate(err)
 			}
 		} else {
+			if !addons.Empty() {
+				return directives.SetRange(&dir, s.Range()), s.Annotate(directives.Error{
+					Message: "annotations must be followed by a transaction",
+					Range:   addons.Range,
+				})
+			}
 			r, err := p.ReadAlternative([]string{"open", "close", "balance", "price"})
 			if err != nil {
 				return directives.SetRange(&dir, s.Range()), s.Annotate(err)
